@@ -460,6 +460,16 @@ func check(prop, tier string) int {
 		fails = append(fails, afails...)
 	}
 
+	if prop == "C13" {
+		ev, lfails, err := l2Check(dir, seed, tier)
+		if err != nil {
+			fmt.Fprintf(os.Stderr, "vsim: %v\n", err)
+			return 2
+		}
+		extraEvidence = ev
+		fails = append(fails, lfails...)
+	}
+
 	known := loadKnown()
 	knownSeen := map[string]int{}
 	deferred := 0
